@@ -14,7 +14,9 @@ import (
 	"github.com/alicebob/miniredis/v2"
 	"github.com/projecteru2/core/cluster/calcium"
 	enginefactory "github.com/projecteru2/core/engine/factory"
+	resourcetypes "github.com/projecteru2/core/resource/types"
 	"github.com/projecteru2/core/store"
+	"github.com/projecteru2/core/strategy"
 	"github.com/projecteru2/core/types"
 	"github.com/projecteru2/core/utils"
 )
@@ -201,6 +203,55 @@ func (e *env) runCase(cs *caseSpec) (obs []obsNode, obsErr error, locked []strin
 	return
 }
 
+// runPublic builds the case through Calcium's public API only and observes CalculateCapacity.
+func (e *env) runPublic(cs *caseSpec) (names []string, callErr error, infra error) {
+	ctx, cancel := context.WithTimeout(context.Background(), 30*time.Second)
+	defer cancel()
+	var added []string
+	defer func() {
+		for _, n := range added {
+			if err := e.c.RemoveNode(ctx, n); err != nil && infra == nil {
+				infra = err
+			}
+		}
+		for _, p := range cs.Pods {
+			if err := e.c.RemovePod(ctx, p); err != nil && infra == nil {
+				infra = err
+			}
+		}
+	}()
+	for _, p := range cs.Pods {
+		if _, err := e.c.AddPod(ctx, p, ""); err != nil {
+			return nil, nil, err
+		}
+	}
+	for _, n := range cs.Nodes {
+		_, err := e.c.AddNode(ctx, &types.AddNodeOptions{Nodename: n.Name, Endpoint: "mock://" + n.Name, Podname: n.Pod, Labels: n.Labels,
+			Resources: resourcetypes.Resources{"cpumem": resourcetypes.RawParams{"cpu": 8, "memory": int64(1 << 30)}}})
+		if err != nil {
+			return nil, nil, err
+		}
+		added = append(added, n.Name)
+		if n.Bypass {
+			if _, err := e.c.SetNode(ctx, &types.SetNodeOptions{Nodename: n.Name, Bypass: types.TriTrue}); err != nil {
+				return nil, nil, err
+			}
+		}
+	}
+	msg, err := e.c.CalculateCapacity(ctx, &types.DeployOptions{Name: "app", Entrypoint: &types.Entrypoint{Name: "e"}, Podname: cs.F.Pod, Image: "img", Count: 1,
+		DeployStrategy: strategy.Dummy,
+		Resources: resourcetypes.Resources{"cpumem": resourcetypes.RawParams{"cpu-request": 0.1, "cpu-limit": 0.1, "memory-request": int64(1 << 20), "memory-limit": int64(1 << 20)}},
+		NodeFilter: &types.NodeFilter{Podname: cs.F.Pod, Includes: append([]string(nil), cs.F.Includes...), Excludes: append([]string(nil), cs.F.Excludes...), Labels: cs.F.Labels, All: cs.F.All}})
+	if err != nil {
+		return nil, err, nil
+	}
+	for n := range msg.NodeCapacities {
+		names = append(names, n)
+	}
+	sort.Strings(names)
+	return names, nil, nil
+}
+
 var nameAlphabet = []string{"a", "b", "c", "aa", "ab", "b0", "B", "n-1", "n-10", "n-2", "z.y", "0", "node"}
 var podAlphabet = []string{"p1", "p2", "pod", "P"}
 var labelKeys = []string{"zone", "disk"}
@@ -380,6 +431,40 @@ func TestC21(t *testing.T) {
 	}
 	t.Logf("phases: %v", phase)
 	r.Finish("corpus (witnesses of the repaired duplicate-include defect, down/bypassed/labelled nodes, empty and unknown pods) on both backends, then random stores (1-3 pods, 0-7 nodes: test/non-test, bypassed, with/without status key, labels) and filters (include lists with repeats and unknown names, excludes, labels, pod/all-pods, all flag); real Calcium.filterNodes and withNodesPodLocked over embedded etcd / miniredis; non-trivial = at least one node selected")
+
+	// ---- end to end through the public API: Calcium.AddNode / SetNode / CalculateCapacity ----
+	cp := vh.New(t, "C21", "capacity")
+	cp.Coq("From Verif Require Import Select.Model.", "Model.ccase", "Model.cagree", "Model.cok")
+	var pubCases []caseSpec
+	for _, cs := range corpus() {
+		pubCases = append(pubCases, cs)
+	}
+	cn := cp.N(60, 2000)
+	for i := 0; i < cn; i++ {
+		pubCases = append(pubCases, randomCase(cp))
+	}
+	for i, cs := range pubCases {
+		for j := range cs.Nodes { // only what the public API can create: engine-backed test nodes
+			cs.Nodes[j].Test, cs.Nodes[j].Status = true, false
+		}
+		e := envs[i%len(envs)]
+		names, err, infra := e.runPublic(&cs)
+		if infra != nil {
+			t.Fatalf("harness infrastructure failure on %s (public): %v (case %+v)", e.name, infra, cs)
+		}
+		obsT := "None"
+		if err == nil {
+			obsT = vh.Some(cstrList(names))
+		}
+		cp.Count("backend=" + e.name)
+		cp.Count(fmt.Sprintf("error=%v", err != nil))
+		cp.Count(fmt.Sprintf("dup_includes=%v", hasDup(cs.F.Includes)))
+		cp.Count(fmt.Sprintf("selected=%d", imin(len(names), 5)))
+		cp.Add(fmt.Sprintf("(mkC %s %s %s)", cs.storeCoq(), cs.filterCoq(), obsT),
+			map[string]any{"backend": e.name, "case": cs, "capacity_nodes": names, "error": errStr(err)},
+			map[string]any{"backend": e.name, "dup_includes": hasDup(cs.F.Includes)}, err == nil && len(names) > 0)
+	}
+	cp.Finish("the select corpus and random cases restricted to what the public API can create (mock-engine nodes added with Calcium.AddNode incl. cpumem resources, bypass set with Calcium.SetNode); observed: the node set of Calcium.CalculateCapacity (DUMMY strategy); non-trivial = at least one node")
 
 	// ---- utils.Unique on arbitrary slices ----
 	u := vh.New(t, "C21", "unique")
